@@ -94,6 +94,24 @@ def free_param_docs():
             if pid == "const-bounded":   # a non-const value parameter is a variable: no accepted twin exists for it
                 bound = X.nta(g, [tpl(params=ptype, decl=decl)], "P = T(1); system P;")
                 out.append(("free-param:%s:%s" % (pid, eid), "bound-twin", bound))
+    # the free parameter reaches the array size through a chain of partial instantiations
+    T2 = X.template("T", params="const int[0,1] pa, const int[0,1] pb", decl="int arr[pb + 1];", locations=[X.location("id0", "L0")], init="id0")
+    for depth in (1, 2, 3):
+        for via in ("restricted-position", "unrestricted-position"):
+            lines, prev = [], "T"
+            for d in range(1, depth + 1):
+                name = "I%d" % d
+                if d == 1:
+                    args = "1, k1" if via == "restricted-position" else "k1, 1"
+                else:
+                    args = "k%d" % d
+                lines.append("%s(const int[0,1] k%d) = %s(%s);" % (name, d, prev, args))
+                prev = name
+            key = "free-param-chain:%s:depth%d" % (via, depth)
+            doc_free = X.nta(GDECL, [T2], "\n".join(lines) + "\nsystem %s;" % prev)
+            doc_bound = X.nta(GDECL, [T2], "\n".join(lines) + "\nB = %s(1);\nsystem B;" % prev)
+            out.append((key, "free" if via == "restricted-position" else "bound-twin", doc_free))
+            out.append((key, "bound-twin", doc_bound))
     return out
 
 
@@ -179,7 +197,7 @@ def main():
                         "instantiation) x %d expressions (12 constant: literals, constants, const arrays/structs, functions of "
                         "constants with chains 1-3, loops; 14 with a dependence on a mutable variable: direct, array, struct, inline-if, "
                         "functions of depth 1-3, through statements/loops/arguments, meta), plus free process parameters inside array "
-                        "sizes with bound twins; plus %d function-local contexts x %d chains that stay inside one function body (parameters, local "
+                        "sizes with bound twins, directly and through chains of 1-3 partial instantiations; plus %d function-local contexts x %d chains that stay inside one function body (parameters, local "
                         "variables, local constants initialised from run-time values, chains of those), in global and template-local "
                         "functions." % (len(CONTEXTS), len(EXPRS), len(LOCAL_CONTEXTS), len(LOCAL_CHAINS)))
     for res in engine.pmap(run_shard, list(CONTEXTS) + ["free-params", "function-local-chains"]):
